@@ -8,6 +8,7 @@ mod prog;
 mod props;
 mod t1;
 mod tape;
+mod trace;
 mod wire;
 
 use hist::Violation;
@@ -658,6 +659,10 @@ fn cmd_selftest(what: &str) -> i32 {
 }
 
 fn main() {
+    trace::install_from_env();
+    if std::env::var_os("H2SIM_TRACE").is_some() {
+        exec::TRACE_ON.store(true, Ordering::Relaxed);
+    }
     let args: Vec<String> = std::env::args().collect();
     let root = std::env::var("H2SIM_ROOT").unwrap_or_else(|_| "/verif".to_string());
     let code = match args.get(1).map(|s| s.as_str()) {
